@@ -146,7 +146,7 @@ func step(st interface{}, in interface{}, out interface{}) []interface{} {
 			}
 		}
 		return one(o.N == n, s)
-	case "expiry":
+	case "expiry", "hold":
 		return one(true, s)
 	case "resetall":
 		// ForAllRecordsDo with a callback that reads the delta sums and resets them: it visits exactly the held flows
@@ -362,6 +362,22 @@ func linHistory(c *hx.Ctx, k int, r *rand.Rand) {
 		}
 		plans = append(plans, p)
 	}
+	if r.IntN(2) == 0 {
+		// a goroutine that HOLDS the process lock for a while without changing anything (a walk over all records
+		// with a slow read-only callback): queries that overlap it must still answer as of some point in between -
+		// an implementation that serves a cached answer when the lock is busy shows here
+		p := plan{client: len(plans)}
+		for j := 0; j < 2+r.IntN(5); j++ {
+			p.ops = append(p.ops, input{Op: "hold", D: 50 + r.IntN(250)})
+		}
+		plans = append(plans, p)
+		p = plan{client: len(plans)}
+		for j := 0; j < 2+r.IntN(5); j++ {
+			p.ops = append(p.ops, input{Op: "num"})
+		}
+		plans = append(plans, p)
+		c.Add("lin_histories_with_a_lock_holder", 1)
+	}
 	var wg sync.WaitGroup
 	startGate := make(chan struct{})
 	jit := make([]uint64, len(plans))
@@ -390,6 +406,14 @@ func linHistory(c *hx.Ctx, k int, r *rand.Rand) {
 					rec.do(p.client, in, func() output { return scanExport(ap) })
 				case "resetall":
 					rec.do(p.client, in, func() output { return walkAndReset(ap) })
+				case "hold":
+					rec.do(p.client, in, func() output {
+						ap.ForAllRecordsDo(func(intermediate.FlowKey, *intermediate.AggregationFlowRecord) error {
+							time.Sleep(time.Duration(in.D) * time.Microsecond)
+							return nil
+						})
+						return output{}
+					})
 				case "get":
 					fk := agg.Keys[in.Flow].FlowKey()
 					rec.do(p.client, in, func() output {
